@@ -884,15 +884,19 @@ impl Scenario for Wire {
                 }
             }
             if server_closed {
-                // the close cuts every program short at a frame boundary (a publish may lose its
-                // tail frames only if it was never handed over as a whole, i.e. not at all)
-                let is_prefix = got.len() <= want.len() && got.iter().zip(want.iter()).all(|(g, w)| g == w);
-                let whole_publishes = match got.last() {
-                    Some(l) if l.starts_with("M003c0028") || l.starts_with('H') => false,
-                    _ => true,
-                };
-                if !is_prefix || !whole_publishes {
-                    v.push(("wire:frames-changed-by-close".into(), format!("channel {} frames on the wire {:?} are not a whole-message prefix of {:?}", chan, got, want)));
+                // the close cuts every program short at a frame boundary. (Not necessarily at a
+                // message boundary: a publish hands its method, header and body over one by one,
+                // and the close may fall between them - the publish then fails, and neither C01
+                // nor C02 promise anything about the frames of a failed publish beyond their being
+                // whole and in order. Found by the thorough tier at 3 deviations.)
+                let mut is_prefix = got.len() <= want.len() && got.iter().zip(want.iter()).all(|(g, w)| g == w);
+                if !is_prefix && !got.is_empty() && got.len() <= want.len() {
+                    // a body cut short by the close: its frames so far are a prefix of the body
+                    let k = got.len() - 1;
+                    is_prefix = got[..k] == want[..k] && got[k].starts_with('B') && want[k].starts_with(got[k].as_str());
+                }
+                if !is_prefix {
+                    v.push(("wire:frames-changed-by-close".into(), format!("channel {} frames on the wire {:?} are not a prefix of {:?}", chan, got, want)));
                 }
                 continue;
             }
